@@ -114,6 +114,47 @@ def _run_jobs(jobs):
         return [_job(j) for j in jobs]
 
 
+def _mutation_sample(ctx, prop: str, base: set, limit: int = 240) -> dict:
+    import random
+    import sys
+
+    tools = os.path.join(os.path.dirname(os.path.dirname(os.path.abspath(__file__))), "tools")
+    if tools not in sys.path:
+        sys.path.insert(0, tools)
+    import mutation_sweep as ms
+
+    fkeys = sorted(k for k in ctx.functions_analysed if k in ctx.p.functions)
+    jobs = []
+    for m, msrc in ms.gen_mutants(ctx.p, fkeys, {"del", "neg", "cmp", "bool", "kw", "ret", "const"}):
+        jobs.append((m.module, m.func, m.op, m.lineno, m.desc, msrc, [prop], {prop: base}))
+    generated = len(jobs)
+    random.Random(0).shuffle(jobs)
+    jobs = jobs[:limit]
+    tally: dict[str, int] = {}
+    by_op: dict[str, list[int]] = {}
+    results = []
+    try:
+        import multiprocessing as mp
+        from concurrent.futures import ProcessPoolExecutor
+
+        n = max(1, min(8, (os.cpu_count() or 2) - 1))
+        with ProcessPoolExecutor(max_workers=n, mp_context=mp.get_context("fork")) as pool:
+            results = list(pool.map(ms.judge, jobs, chunksize=4))
+    except Exception:  # noqa: BLE001
+        results = [ms.judge(j) for j in jobs]
+    for r in results:
+        tally[r["outcome"]] = tally.get(r["outcome"], 0) + 1
+        t = by_op.setdefault(r["op"], [0, 0])
+        t[0] += 1
+        t[1] += 1 if r["outcome"] == "detected" else 0
+    return {
+        "generated": generated, "sampled": len(jobs), "reported": tally.get("detected", 0), "silent": tally.get("silent", 0),
+        "checker_errors": tally.get("analysis-error", 0) + tally.get("internal-error", 0),
+        "by_operator": {k: {"mutants": v[0], "reported": v[1]} for k, v in sorted(by_op.items())},
+        "note": "statement deletion, negated test, flipped comparison, and/or swap, dropped keyword, return None, constant tweak; parsed, never run",
+    }
+
+
 def run(ctx, mod, out=print) -> dict:
     prop = ctx.prop
     repo = ctx.p.repo
@@ -191,6 +232,18 @@ def run(ctx, mod, out=print) -> dict:
             out(f"SELFTEST property={prop} variant={name} MISSED")
     res["variants_applicable"] = n_app
     res["variants_detected"] = n_det
+
+    # 2b. generic mutants of the functions this property's rules examined (a deterministic sample): how much of an arbitrary
+    #     small edit to that code the rules notice.  A measure, not an expectation - most silent mutants are equivalent or
+    #     outside every claimed clause - so it never affects `ok`.
+    try:
+        res["mutation_sample"] = _mutation_sample(ctx, prop, base)
+        ms_ = res["mutation_sample"]
+        out(f"SELFTEST property={prop} generic mutants sampled={ms_['sampled']} of {ms_['generated']} reported={ms_['reported']} silent={ms_['silent']} checker_errors={ms_['checker_errors']}")
+        if ms_["checker_errors"]:
+            res["ok"] = False
+    except Exception as e:  # noqa: BLE001
+        res["mutation_sample"] = {"skipped": f"{type(e).__name__}: {e}"[:200]}
 
     # 3. mypy cross-check of the call edges the rules relied on
     from . import mypyx
